@@ -1,0 +1,56 @@
+//go:build verif
+
+package main
+
+import (
+	"errors"
+	"io"
+	"strings"
+
+	"github.com/moorara/algo/lexer/input"
+)
+
+func init() {
+	register("reader", opReader)
+}
+
+// opReader drives the dependency's two-buffer reader with an arbitrary half size through a script of
+// operations: N = Next, R = Retract, L = Lexeme, S = Skip.  It reports what each operation returned.
+func opReader(req request) response {
+	text := str(req, "text")
+	n := num(req, "n", 4)
+	ops := str(req, "ops")
+	in, err := input.New("f", strings.NewReader(text), n)
+	if err != nil {
+		if errors.Is(err, io.EOF) {
+			return response{"outcome": "ok", "new": "eof", "results": []any{}}
+		}
+		return response{"outcome": "ok", "new": err.Error(), "results": []any{}}
+	}
+	results := []any{}
+	for _, op := range ops {
+		switch op {
+		case 'N':
+			r, err := in.Next()
+			if err != nil {
+				if errors.Is(err, io.EOF) {
+					results = append(results, "eof")
+				} else {
+					results = append(results, "err")
+				}
+			} else {
+				results = append(results, int(r))
+			}
+		case 'R':
+			in.Retract()
+			results = append(results, "r")
+		case 'L':
+			lx, pos := in.Lexeme()
+			results = append(results, []any{lx, pos.Offset, pos.Line, pos.Column})
+		case 'S':
+			pos := in.Skip()
+			results = append(results, []any{"", pos.Offset, pos.Line, pos.Column})
+		}
+	}
+	return response{"outcome": "ok", "new": "ok", "results": results}
+}
